@@ -157,6 +157,62 @@ def grammar(ctx, R_):
                     R_.call("jwe.decrypt_json", f"general/any {h!r} key={kn}", lambda: jwe.decrypt_json(copy.deepcopy(d), key, registry=any_reg, sender_key=sender))
 
 
+def algorithm_members(ctx, R_):
+    """Always present (not sampled): every header member that a key-management algorithm reads for itself - epk/apu/apv
+    (ECDH-ES, ECDH-1PU), skid (ECDH-1PU), p2s/p2c (PBES2), iv/tag (AES-GCM key wrap) - carrying every JSON type, `null`
+    included, in a token for that algorithm and with a key the algorithm accepts; in the protected header (compact), and in
+    the per-recipient and shared unprotected headers (JSON)."""
+    from joserfc import jwe, jwt
+    keys = keyring()
+    fams = []
+    for alg in jwe.JWERegistry.algorithms["alg"]:
+        if alg.startswith("ECDH-1PU"):
+            fams.append((alg, ["epk", "apu", "apv", "skid"], ["p256", "x25519"]))
+        elif alg.startswith("ECDH"):
+            fams.append((alg, ["epk", "apu", "apv"], ["p256", "x25519"]))
+        elif alg.startswith("PBES2"):
+            fams.append((alg, ["p2s", "p2c"], ["oct32"]))
+        elif alg.endswith("GCMKW"):
+            fams.append((alg, ["iv", "tag"], [{"A128GCMKW": "oct16", "A192GCMKW": "oct24", "A256GCMKW": "oct32"}[alg]]))
+    for alg, members, kns in fams:
+        for kn in kns:
+            key = keys.get(kn) or K.key(kn)
+            for m in members:
+                for v in JSONVALS:
+                    if m == "p2c" and isinstance(v, int) and not isinstance(v, bool) and 5000 < v < 2 ** 31:
+                        continue
+                    base = {"alg": alg, "enc": "A128GCM"}
+                    if alg.startswith("PBES2"):
+                        base.update({"p2s": "c2FsdHNhbHQ", "p2c": 2})
+                    if alg.endswith("GCMKW"):
+                        base.update({"iv": "aWlpaWlpaWlpaWlp", "tag": "dHR0dHR0dHR0dHR0dHR0dA"})
+                    if alg.startswith("ECDH"):
+                        base["epk"] = K.key({"p256": "p256b", "x25519": "x25519b"}[kn], private=False).as_dict(private=False)
+                    h = dict(base, **{m: v})
+                    ek = b"" if alg in ("ECDH-ES", "ECDH-1PU") else b"k" * 24
+                    tok = jb(h) + b"." + b64(ek) + b"." + b64(b"i" * 12) + b"." + b64(b"c" * 5) + b"." + b64(b"t" * 16)
+                    sender = keys["p256"] if kn == "p256" else keys["x25519"]
+                    sk = {"sender_key": sender} if alg.startswith("ECDH-1PU") else {}
+                    R_.call("jwe.decrypt_compact", f"alg-member {m}={v!r} alg={alg} key={kn}", lambda: jwe.decrypt_compact(tok, key, algorithms=E.ALL_NAMES, **sk))
+                    R_.call("jwt.decode(jwe)", f"alg-member {m}={v!r} alg={alg} key={kn}", lambda: jwt.decode(tok, key, registry=jwe.JWERegistry(algorithms=E.ALL_NAMES)))
+                    for where in ("recipient", "unprotected"):
+                        rest = {k_: v_ for k_, v_ in h.items() if k_ not in ("enc", m)}
+                        d = {"protected": jb({"enc": "A128GCM"}).decode(), "iv": b64(b"i" * 12).decode(), "ciphertext": "Y2M", "tag": "dHR0dHR0dHR0dHR0dHR0dA",
+                             "recipients": [{"header": dict(rest, **({m: v} if where == "recipient" else {}))}]}
+                        if ek:
+                            d["recipients"][0]["encrypted_key"] = b64(ek).decode()
+                        if where == "unprotected":
+                            d["unprotected"] = {m: v}
+                        R_.call("jwe.decrypt_json", f"alg-member general {where} {m}={v!r} alg={alg} key={kn}",
+                                lambda: jwe.decrypt_json(copy.deepcopy(d), key, algorithms=E.ALL_NAMES, **sk))
+                        flat = {k_: v_ for k_, v_ in d.items() if k_ != "recipients"}
+                        flat["header"] = d["recipients"][0]["header"]
+                        if ek:
+                            flat["encrypted_key"] = b64(ek).decode()
+                        R_.call("jwe.decrypt_json", f"alg-member flat {where} {m}={v!r} alg={alg} key={kn}",
+                                lambda: jwe.decrypt_json(copy.deepcopy(flat), key, algorithms=E.ALL_NAMES, **sk))
+
+
 def json_shapes(ctx, R_):
     """General JSON serializations whose lists have every small cardinality (empty "recipients" / "signatures", entries
     that are empty objects) around otherwise acceptable members: a supported enc with an IV of the right size, so that
@@ -481,6 +537,7 @@ def random_bytes(ctx, R_):
 def run(ctx):
     R_ = Runner(ctx)
     grammar(ctx, R_)
+    algorithm_members(ctx, R_)
     embedded_keys(ctx, R_)
     boundary_integers(ctx, R_)
     json_shapes(ctx, R_)
